@@ -8,6 +8,7 @@ CONSTANTS
   Faults = {}
   MaxFaults = 0
   CC0 = 14
+  EarlyPMT = FALSE
   StartLike = FALSE
   Dev = {}
 ACTION_CONSTRAINT ExportEdge
